@@ -112,7 +112,13 @@ static void scenario(void)
 
 void harness(void)
 {
+#if PART == 1
+  /* concrete lifetimes: the (unarmed) insert must take ONE path, otherwise the allocation counter the fetch is armed
+   * against is a merge of several paths (symbolic) and every allocation of the fetch becomes a candidate */
+  unsigned int max_ttl = 3600;
+#else
   unsigned int max_ttl = vp_u32();
+#endif
   vp_alloc_install();
   VP_ASSUME(max_ttl >= 1);
   mk_request();
@@ -129,7 +135,11 @@ void harness(void)
   RESP->nrr    = 1;
   RESP->rr[0].sect = ARES_SECTION_ANSWER;
   RESP->rr[0].type = ARES_REC_TYPE_A;
+#if PART == 1
+  RESP->rr[0].ttl  = 300;
+#else
   RESP->rr[0].ttl  = (unsigned int)vp_range(1, 100000);
+#endif
   arec_commit(RESP);
   live0 = vp_alloc_live;
   VP_ASSUME(ares_qcache_create(NULL, max_ttl, &qc) == ARES_SUCCESS);
